@@ -158,6 +158,18 @@ def _demog(d):
     raise ValueError(t)
 
 
+def _intervention(i):
+    import starsim as ss
+    i = dict(i); t = i.pop('type')
+    if t == 'sir_vx':
+        prod = ss.sir_vaccine(efficacy=i.get('efficacy', 0.9), leaky=i.get('leaky', True))
+        kw = dict(product=prod, prob=i.get('prob', 0.5))
+        if 'start_year' in i: kw['start_year'] = i['start_year']
+        if 'end_year' in i: kw['end_year'] = i['end_year']
+        return ss.routine_vx(**kw)
+    raise ValueError(t)
+
+
 def build_sim(cfg, extra_interventions=None, extra_analyzers=None, **over):
     """ Build (not init) a real ss.Sim from a JSON-able configuration """
     import starsim as ss
@@ -169,7 +181,7 @@ def build_sim(cfg, extra_interventions=None, extra_analyzers=None, **over):
     pars['networks'] = [_network(n, cfg['n_agents']) for n in cfg.get('networks', [])]
     dem = [_demog(d) for d in cfg.get('demographics', [])]
     if dem: pars['demographics'] = dem
-    intv = list(extra_interventions or [])
+    intv = [_intervention(i) for i in cfg.get('interventions', [])] + list(extra_interventions or [])
     ana = list(extra_analyzers or [])
     if intv: pars['interventions'] = intv
     if ana: pars['analyzers'] = ana
